@@ -241,6 +241,9 @@ class CSSStyleSheet(cssutils.stylesheets.StyleSheet):
                             r._replaceNamespaceURI(rule.namespaceURI)
 
                 self._namespaces[rule.prefix] = rule.namespaceURI
+            else:
+                # an ignored rule does not end the part for @import
+                return expected
 
             return 2
 
@@ -256,9 +259,12 @@ class CSSStyleSheet(cssutils.stylesheets.StyleSheet):
                     xml.dom.HierarchyRequestErr,
                 )
                 return expected
-            elif rule.wellformed:
+            elif rule.wellformed and getattr(rule, '_accepted', True):
                 self.insertRule(rule)
                 self._updateVariables()
+            else:
+                # an ignored rule does not end the part for @import etc.
+                return expected
 
             return 2
 
@@ -266,7 +272,7 @@ class CSSStyleSheet(cssutils.stylesheets.StyleSheet):
             # parse and consume tokens in any case
             rule = cssutils.css.CSSFontFaceRule(parentStyleSheet=self)
             rule.cssText = self._tokensupto2(tokenizer, token)
-            if rule.wellformed:
+            if rule.wellformed and getattr(rule, '_accepted', True):
                 self.insertRule(rule)
                 return 3
             # an ignored rule does not end the part for @import etc.
@@ -276,7 +282,7 @@ class CSSStyleSheet(cssutils.stylesheets.StyleSheet):
             # parse and consume tokens in any case
             rule = cssutils.css.CSSMediaRule(parentStyleSheet=self)
             rule.cssText = self._tokensupto2(tokenizer, token)
-            if rule.wellformed:
+            if rule.wellformed and getattr(rule, '_accepted', True):
                 self.insertRule(rule)
                 return 3
             # an ignored rule does not end the part for @import etc.
@@ -286,7 +292,7 @@ class CSSStyleSheet(cssutils.stylesheets.StyleSheet):
             # parse and consume tokens in any case
             rule = cssutils.css.CSSPageRule(parentStyleSheet=self)
             rule.cssText = self._tokensupto2(tokenizer, token)
-            if rule.wellformed:
+            if rule.wellformed and getattr(rule, '_accepted', True):
                 self.insertRule(rule)
                 return 3
             # an ignored rule does not end the part for @import etc.
